@@ -62,9 +62,10 @@ R210 = [2, 3, 4, 5, 6, 7, 8, 9, 10]
 
 def _m16_like(s, lo, hi, p):
     r = _wsum(s, lo, hi, R27) % 11
-    if r == 1:
-        # "Rest 1": the account number is valid iff the digit before the check digit equals it
-        return s[p - 2] == s[p - 1]
+    if r == 1 and s[p - 2] == s[p - 1]:
+        # "Rest 1": valid regardless of the computed result if the digit before the check digit
+        # equals it; otherwise the ordinary 06 rule decides (check digit 0)
+        return True
     return _rule06(s, lo, hi, R27, p)
 
 
